@@ -1,5 +1,5 @@
 //! Domain `codec` (C17): column letters, coordinates, ranges, addresses.
-use crate::util::*;
+use uverif::*;
 use serde_json::{json, Value};
 use umya_spreadsheet::helper::{address, coordinate, range};
 use umya_spreadsheet::structs::{Address, Coordinate, Range};
@@ -11,21 +11,6 @@ fn opt_tuple(t: (Option<u32>, Option<u32>, Option<bool>, Option<bool>)) -> Value
         (Some(c), Some(r), Some(lc), Some(lr)) => json!([c, r, lc, lr]),
         _ => json!([0, 0, false, false]),
     }
-}
-
-/// Item-level outcome: "ok" unless one of the calls panicked (then the other fields must not be read).
-fn finish(mut item: Value) -> Value {
-    let mut bad: Vec<String> = vec![];
-    if let Some(m) = item.as_object() {
-        for (k, v) in m.iter() {
-            if v == &Value::String("panic".into()) {
-                bad.push(k.clone());
-            }
-        }
-    }
-    item["outcome"] = if bad.is_empty() { json!("ok") } else { json!("panic") };
-    item["panicked"] = json!(bad.join(","));
-    item
 }
 
 fn range_record(r: &Range) -> Value {
@@ -47,7 +32,11 @@ fn range_record(r: &Range) -> Value {
     }
 }
 
-pub fn run(case: &Value) -> Vec<Value> {
+fn main() {
+    serve(run);
+}
+
+fn run(case: &Value) -> Vec<Value> {
     let a = s(case, "a");
     let id = case["case"].clone();
     match a {
